@@ -811,9 +811,9 @@ def st_reduce(draw):
 @subcheck("C15", "reduce_npts", st_reduce, quick=600, thorough=8000,
           rule="DFTKernel.set_control_points(reduce=True) in SEP/NPOL/POL over RBF-type kernels with positive diagonal, 2-14 "
                "raw points plus exact duplicates and near-duplicates (1e-7 apart), ctrl_tol in {1e-8..1e-2}, ctrl_nmax "
-               "None/1/3/6; oracles: every returned control point is bit-equal to a distinct input row (a subset), the "
-               "array is Fortran-ordered as produced, the normalised Gram matrix of the selection has every Cholesky pivot "
-               "(in the returned order) above ctrl_tol (numerically full rank at ctrl_tol), and unless ctrl_nmax truncates, "
+               "None/1/3/6; oracles: every returned control point is bit-equal to a distinct input row (a subset, in any order), the "
+               "normalised Gram matrix of the selection has every pivot of its max-diagonal pivoted Cholesky factorisation "
+               "above ctrl_tol (numerically full rank at ctrl_tol), and unless ctrl_nmax truncates, "
                "every discarded point has residual <= ctrl_tol against the selection; non-trivial = something was discarded",
           tolerances={"pivot_margin": 1e-6})
 def reduce_npts(case, ctx):
@@ -862,7 +862,8 @@ def reduce_npts(case, ctx):
     ctx.check(nsel >= 1, ("empty_selection", mode))
     if case["nmax"] is not None:
         ctx.check(nsel <= case["nmax"], ("ctrl_nmax_exceeded", mode), nsel=nsel, nmax=case["nmax"])
-    ctx.check(sel.flags.f_contiguous, ("not_fortran", mode))
+    if not sel.flags.f_contiguous:
+        ctx.event("layout:control_points_not_fortran_ordered")     # memory order of the stored points is not part of the property
     ctx.event("discarded" if nsel < nfull else "kept_all")
     if nsel < nfull:
         ctx.nontrivial([mode, G.describe(spec), case["tol"], case["nmax"], nfull, nsel])
@@ -870,15 +871,22 @@ def reduce_npts(case, ctx):
     Sn = S * nrm[:, None] * nrm[None, :]
     Gs = Sn[np.ix_(idx, idx)]
     tol = case["tol"]
-    # Cholesky pivots in the returned order = the pivots the pivoted factorisation accepted (each > tol)
+    # The pivots a max-diagonal pivoted Cholesky factorisation of the *selected* Gram matrix accepts (each > tol).  Judged
+    # independently of the order in which the points are returned: at every step of the factorisation over all inputs the
+    # pivot is the largest residual diagonal, and it is always a selected point, so the greedy order restricted to the
+    # selected set reproduces the accepted pivots whether the implementation returns pivot order or training order.
     A = Gs.copy()
     piv = []
-    for j in range(nsel):
+    left = list(range(nsel))
+    while left:
+        j = max(left, key=lambda q: A[q, q])
         p = A[j, j]
         piv.append(p)
+        left.remove(j)
         if p <= 0:
             break
-        A[j + 1:, j + 1:] -= np.outer(A[j + 1:, j], A[j, j + 1:]) / p
+        if left:
+            A[np.ix_(left, left)] -= np.outer(A[left, j], A[j, left]) / p
     piv = np.array(piv)
     ctx.measure("min_pivot_over_tol_inverse", tol / max(float(piv.min()), 1e-300))
     ctx.check(np.all(piv > tol * (1 - 1e-6) - 1e-12), ("rank_deficient_selection", mode), pivots=piv.tolist(), tol=tol)
